@@ -114,12 +114,104 @@ def range_guarded(a):
 
 OPT_UNWRAP_RX = r"Option::<T>::(unwrap|expect)$"
 CMP_RX = r"cmp::PartialOrd::(lt|le|gt|ge)$"
-PEEK_RX = r"BTreeMap::<K, V, A>::(first_key_value|last_key_value)$|VecDeque::<T, A>::(front|back)$|slice::<impl \[T\]>::(first|last)$"
+PEEK_RX = (r"BTreeMap::<K, V, A>::(first_key_value|last_key_value)$|VecDeque::<T, A>::(front|back)$|slice::<impl \[T\]>::(first|last)$|"
+           r"iter::Iterator>?::last$|iter::DoubleEndedIterator>?::next_back$")
 POP_RX = r"BTreeMap::<K, V, A>::(pop_first|pop_last)$|VecDeque::<T, A>::(pop_front|pop_back)$|Vec::<T, A>::pop$"
 
 
 def _is_some_agg(e):
     return isinstance(e, tuple) and len(e) > 2 and e[0] == "agg" and e[1].endswith("option::Option") and e[2] == "Some"
+
+
+def option_unwrap_verdicts(g, P, site_filter=None):
+    """{unwrap/expect call node on an Option: True iff every path reaching it has established the value to be Some}, plus the
+    stripped operand of each site.  Facts: a variant test on the place, is_some/is_none, `Some(x) <,<= opt` taken (`>=,>` refused),
+    a peek (first_key_value / last_key_value / front / back / first / last / iter().last()) that returned Some before a pop of the
+    same container, with no write to the value / mutation of the container in between."""
+    sites = [n for n in P.calls(OPT_UNWRAP_RX) if not g.term(n).get("exp")]
+    cand = {n: strip_ids(event_args(g, n)[0]) for n in sites}
+    if site_filter:
+        sites = [n for n in sites if site_filter(cand[n])]
+        cand = {n: cand[n] for n in sites}
+    if not sites:
+        return {}, {}
+    cmps = {n for n in P.calls(CMP_RX)}
+    peeks = {n for n in P.calls(PEEK_RX)}
+    pops = {n for n in P.calls(POP_RX)}
+    tests = {n for n in P.calls(r"Option::<T>::(is_some|is_none)$")}
+    verdict = {}
+    want_some = set(cand.values())
+    want_nonempty = set()
+
+    def container(e):
+        # iter().last(): the emptiness fact is about the container behind the iterator
+        while isinstance(e, tuple) and e and e[0] == "call" and re.search(r"::(iter|iter_mut|values|keys|into_iter)$", str(e[1])) and e[2]:
+            e = e[2][0]
+        return e
+    for n in pops:
+        if strip_ids(g.prov_call(g.inst(n), n[1])) in want_some:
+            a = [strip_ids(x) for x in event_args(g, n)]
+            if a:
+                want_nonempty.add(a[0])
+
+    def fname(e):
+        return e[2] if isinstance(e, tuple) and e and e[0] == "field" else None
+
+    def step(ms, pi, qi, learn):
+        known = set(ms)
+        n = P.gnode(pi)
+        for st in g.stmts(n):
+            if st["k"] == "assign" and st["p"]["proj"]:
+                fl = [el for el in st["p"]["proj"] if isinstance(el, dict) and "f" in el]
+                if fl:
+                    nm = fl[-1].get("n")
+                    known = {k for k in known if not (k[0] == "some" and fname(k[1]) == nm)}
+        t = g.term(n)
+        if n in cand:
+            e = cand[n]
+            ok = ("some", e) in known
+            if not ok:
+                tg = P.operand_tag(pi, t["args"][0]) if t.get("args") else None
+                ok = bool(tg) and tg[0] == "Some"
+            verdict[n] = verdict.get(n, True) and ok
+        if n in pops:
+            a = [strip_ids(x) for x in event_args(g, n)]
+            res = strip_ids(g.prov_call(g.inst(n), n[1]))
+            known.discard(("some", res))
+            if a and ("nonempty", a[0]) in known:
+                known.add(("some", res))
+            known = {k for k in known if not (k[0] == "nonempty" and a and k[1] == a[0])}
+        elif t["k"] == "call" and n not in g.callee_inst and n not in peeks and mut_first_arg(g, n):
+            a = [strip_ids(x) for x in event_args(g, n)]
+            if a:
+                known = {k for k in known if not (k[0] == "nonempty" and k[1] == a[0])}
+        for o, v in norm_learn(learn):
+            cn = origin_call(o)
+            if cn in cmps:
+                a = [strip_ids(x) for x in event_args(g, cn)]
+                nm = cpath(g.term(cn)).split("::")[-1]
+                if len(a) == 2:
+                    if _is_some_agg(a[0]) and ((nm in ("lt", "le") and v == "true") or (nm in ("ge", "gt") and v == "false")):
+                        known.add(("some", a[1]))
+                    if _is_some_agg(a[1]) and ((nm in ("gt", "ge") and v == "true") or (nm in ("le", "lt") and v == "false")):
+                        known.add(("some", a[0]))
+            elif cn in peeks and v in ("Some", "Continue"):
+                a = [strip_ids(x) for x in event_args(g, cn)]
+                if a:
+                    known.add(("nonempty", container(a[0])))
+            elif cn in tests:
+                a = [strip_ids(x) for x in event_args(g, cn)]
+                nm = cpath(g.term(cn)).split("::")[-1]
+                if a and ((nm == "is_some" and v == "true") or (nm == "is_none" and v == "false")):
+                    known.add(("some", a[0]))
+            elif cn is None and v == "Some" and isinstance(o, tuple) and o and o[0] == "place":
+                e = origin_place_expr(g, o)
+                if e is not None:
+                    known.add(("some", strip_ids(e)))
+        known = {k for k in known if (k[0] == "some" and k[1] in want_some) or (k[0] == "nonempty" and k[1] in want_nonempty)}
+        return frozenset(known)
+    run_monitor(P, frozenset(), step)
+    return verdict, cand
 
 
 def r16_3(ctx, rep, ents, floor=4, site_filter=None):
@@ -133,92 +225,10 @@ def r16_3(ctx, rep, ents, floor=4, site_filter=None):
         g = ctx.graph(key)
         P = ctx.product(key)
         op = short_key(key).split("::")[-1] if "closure" not in key else "read-closure"
-        sites = [n for n in P.calls(OPT_UNWRAP_RX) if not g.term(n).get("exp")]
-        if not sites:
-            continue
-        cand = {n: strip_ids(event_args(g, n)[0]) for n in sites}
-        if site_filter:
-            sites = [n for n in sites if site_filter(cand[n])]
-            cand = {n: cand[n] for n in sites}
-            if not sites:
-                continue
-        cmps = {n for n in P.calls(CMP_RX)}
-        peeks = {n for n in P.calls(PEEK_RX)}
-        pops = {n for n in P.calls(POP_RX)}
-        tests = {n for n in P.calls(r"Option::<T>::(is_some|is_none)$")}
-        verdict = {}
-        want_some = set(cand.values())
-        want_nonempty = set()
-        for n in pops:
-            if strip_ids(g.prov_call(g.inst(n), n[1])) in want_some:
-                a = [strip_ids(x) for x in event_args(g, n)]
-                if a:
-                    want_nonempty.add(a[0])
-
-        def fname(e):
-            return e[2] if isinstance(e, tuple) and e and e[0] == "field" else None
-
-        def step(ms, pi, qi, learn):
-            known = set(ms)
-            n = P.gnode(pi)
-            # writes kill facts about the written field
-            for st in g.stmts(n):
-                if st["k"] == "assign" and st["p"]["proj"]:
-                    fl = [el for el in st["p"]["proj"] if isinstance(el, dict) and "f" in el]
-                    if fl:
-                        nm = fl[-1].get("n")
-                        known = {k for k in known if not (k[0] == "some" and fname(k[1]) == nm)}
-            t = g.term(n)
-            if n in cand:
-                e = cand[n]
-                ok = ("some", e) in known
-                if not ok:
-                    tg = P.operand_tag(pi, t["args"][0]) if t.get("args") else None
-                    ok = bool(tg) and tg[0] == "Some"
-                verdict[n] = verdict.get(n, True) and ok
-            if n in pops:
-                a = [strip_ids(x) for x in event_args(g, n)]
-                res = strip_ids(g.prov_call(g.inst(n), n[1]))
-                known.discard(("some", res))
-                if a and ("nonempty", a[0]) in known:
-                    known.add(("some", res))
-                known = {k for k in known if not (k[0] == "nonempty" and a and k[1] == a[0])}
-            elif t["k"] == "call" and n not in g.callee_inst and n not in peeks and mut_first_arg(g, n):
-                a = [strip_ids(x) for x in event_args(g, n)]
-                if a:
-                    known = {k for k in known if not (k[0] == "nonempty" and k[1] == a[0])}
-            for o, v in norm_learn(learn):
-                cn = origin_call(o)
-                if cn in cmps:
-                    a = [strip_ids(x) for x in event_args(g, cn)]
-                    nm = cpath(g.term(cn)).split("::")[-1]
-                    if len(a) == 2:
-                        # Some(x) <|<= b  taken  => b is Some ; Some(x) >=|> b refused => b is Some   (None < Some(_))
-                        if _is_some_agg(a[0]) and ((nm in ("lt", "le") and v == "true") or (nm in ("ge", "gt") and v == "false")):
-                            known.add(("some", a[1]))
-                        if _is_some_agg(a[1]) and ((nm in ("gt", "ge") and v == "true") or (nm in ("le", "lt") and v == "false")):
-                            known.add(("some", a[0]))
-                elif cn in peeks and v == "Some":
-                    a = [strip_ids(x) for x in event_args(g, cn)]
-                    if a:
-                        known.add(("nonempty", a[0]))
-                elif cn in tests:
-                    a = [strip_ids(x) for x in event_args(g, cn)]
-                    nm = cpath(g.term(cn)).split("::")[-1]
-                    if a and ((nm == "is_some" and v == "true") or (nm == "is_none" and v == "false")):
-                        known.add(("some", a[0]))
-                elif cn is None and v == "Some" and isinstance(o, tuple) and o and o[0] == "place":
-                    e = origin_place_expr(g, o)
-                    if e is not None:
-                        known.add(("some", strip_ids(e)))
-            known = {k for k in known if (k[0] == "some" and k[1] in want_some) or (k[0] == "nonempty" and k[1] in want_nonempty)}
-            return frozenset(known)
-        run_monitor(P, frozenset(), step)
-        for n in sites:
+        verdict, cand = option_unwrap_verdicts(g, P, site_filter)
+        for n in sorted(verdict):
             sid = (g.inst(n).key, n[1])
             if sid in seen_sites:
-                continue
-            if n not in verdict:
                 continue
             seen_sites[sid] = True
             sig = "unwrap(%s)" % expr_s(cand[n])[:70]
